@@ -147,7 +147,8 @@ class C19(Prop):
     level = 'exploration'
     rule = ('one case = 2-5 watchers with seeded priorities (ties, '
             'negatives), numprocesses 1-4, per-watcher and global warmup '
-            'delays (0 included), autostart flags; triggers: daemon start, '
+            'delays (0 included), autostart flags, in 15 % before_spawn hooks '
+            'that block for a different time at each call; triggers: daemon start, '
             'stop-all then start (all), start / restart with a glob matching '
             'several watchers; worker deaths during the start sequence. the '
             'kernel spawn log (virtual timestamps) inside each start window '
@@ -215,6 +216,16 @@ class C19(Prop):
                  'waiting': True, 'place': 'now', 'sync': True,
                  'c19_window': True},
                 {'op': 'quiet', 'checks': 1}])
+        if rng.random() < 0.15:
+            # a before_spawn hook that waits for something (blocking the
+            # daemon) - for a different time at every call
+            for wc in cfg['watchers']:
+                if rng.random() < 0.6:
+                    wc['hooks'] = {'before_spawn': {
+                        'script': [rng.choice(['true', 'true', 'block:0.01',
+                                               'block:0.2', 'block:0.6',
+                                               'block:1.5'])
+                                   for _ in range(8)], 'ignore': False}}
         for _ in range(rng.choice([0, 1, 2, 3])):
             kind = rng.choice(['startall', 'restartglob', 'startglob'])
             glob = rng.choice(['w*', 'w*', 'W*', 'w[0-2]', 'w[13]', '*'])
